@@ -100,6 +100,14 @@ def source_slot(ctx):
     vlib.proof_phase_extra(ctx, 'Properties_slot_source')
 
 
+# deferred static type ids: translators/deferred.py -> Gen/GenDef.v -> Properties_def_source
+SOURCE_DEF = ('C10',)
+
+
+def source_def(ctx):
+    vlib.proof_phase_extra(ctx, 'Properties_def_source')
+
+
 def main(pid, assumptions, level='proof', explanation=None):
     ctx = vlib.Ctx(pid)
     if ctx.replay:
@@ -124,6 +132,8 @@ def main(pid, assumptions, level='proof', explanation=None):
         source_phase(ctx)
     if pid in SOURCE_SLOT:
         source_slot(ctx)
+    if pid in SOURCE_DEF:
+        source_def(ctx)
     res = coresuite.dispatch_suite(ctx.tier, ctx.seed)
     cov = coresuite.summarize(ctx, res, pid)
     if pid == 'C03':
